@@ -234,15 +234,22 @@ def run(res, tier, seed, replay):
 
 # ---------------------------------------------------------------------------------------------
 # catalog level: which tags an interaction carries (theorems every_interaction_tagged, explicit_tags_win,
-# undeclared_tag_rejected, declared_title, declared_tag_captures_automatic of props/C19.v)
+# explicit_tags_declared, undeclared_tag_rejected, tags_directive_checked, declared_title,
+# declared_tag_captures_automatic of props/C19.v).  An accepted document in which a Tags directive names
+# something no TAG directive declares is a violation (it was the known class
+# C19/tags-may-name-an-automatic-tag until /repo 7c6c158 + d972208).
 
-KNOWN_UNDECLARED = "C19/tags-may-name-an-automatic-tag"
 HTTP_KINDS = {8: "GET", 9: "POST", 10: "PUT", 11: "PATCH", 12: "DELETE"}
 EXAMPLES = [
-    ("declared-captures-automatic", b"JSIGHT 0.3\nTAG @x // My X\nGET /x\n  200 any\n"),
-    ("undeclared-automatic", b"JSIGHT 0.3\nGET /x\n  200 any\nGET /y\n  Tags @x\n  200 any\n"),
-    ("undeclared-automatic-swapped", b"JSIGHT 0.3\nGET /y\n  Tags @x\n  200 any\nGET /x\n  200 any\n"),
+    ("declared-captures-automatic", b"JSIGHT 0.3\n\nTAG @x // My X\n\nGET /x\n  200 any\n"),
+    ("undeclared-automatic", b"JSIGHT 0.3\n\nGET /x\n  200 any\n\nGET /y\n  Tags @x\n  200 any\n"),
+    ("undeclared-automatic-swapped", b"JSIGHT 0.3\n\nGET /y\n  Tags @x\n  200 any\n\nGET /x\n  200 any\n"),
+    ("undeclared-unused-url-tags", b"JSIGHT 0.3\nTAG @a\nURL /u\n  Tags @b\n  GET\n    Tags @a\n    200 any\n"),
 ]
+# the verdicts the theorems declared_tag_captures_automatic / undeclared_tag_examples state for them:
+# accepted, or "tag not found" at this offset
+EXAMPLE_VERDICTS = {"declared-captures-automatic": None, "undeclared-automatic": 39, "undeclared-automatic-swapped": 21,
+                    "undeclared-unused-url-tags": 27}
 TAG_PATHS = [b"/x", b"/x/y", b"/y", b'"/x y"', b"/x_", b"/", b"/./x", b"//x", b"/X", "/é".encode(), b"/x\xff", b"/{id}/x"]
 TAG_NAMES = [b"@x", b"@y", b"@x_20y", b"@_", b"@X", b"@t", b"@x__"]
 
@@ -361,11 +368,9 @@ def catalog_part(res, acc, rng, quick, rp):
     outs = C.run_sharded("harness", "fn", [P.run_line("out=json", pj) for _, pj in projects])
     trees = C.run_sharded("harness", "fn", [P.run_line("stage=expand", pj) for _, pj in projects])
     res.count(len(projects))
-    known_ids = {f.get("id") for f in C.load_known().get("findings", []) if f.get("property") == "C19"}
     dist = {"projects": len(projects), "accepted": 0, "interactions": 0, "with_own_or_url_Tags": 0, "automatic": 0,
-            "declared_tags": 0, "captured_by_declared_tag": 0, "undeclared_but_automatic": 0, "skipped_repeated_keys": 0,
-            "rejected_tag_not_found": 0}
-    undeclared = []
+            "declared_tags": 0, "captured_by_declared_tag": 0, "tags_directives": 0, "tags_directives_no_method_inherits": 0,
+            "skipped_repeated_keys": 0, "rejected_tag_not_found": 0}
 
     def bad(k, what, detail):
         origin, pj = projects[k]
@@ -374,6 +379,13 @@ def catalog_part(res, acc, rng, quick, rp):
 
     for k, (o, tr) in enumerate(zip(outs, trees)):
         st, d = P.parse(o)
+        origin = projects[k][0]
+        if origin.startswith("tags:") and origin[5:] in EXAMPLE_VERDICTS:
+            want_off = EXAMPLE_VERDICTS[origin[5:]]
+            got_v = None if st == "ok" else (int(d["idx"]) if st == "err" and b"tag not found" in C.unhx(d.get("msg", "-")) else (st, d.get("idx")))
+            if got_v != want_off:
+                bad(k, "example of props/C19.v", "the theorem says %s, the implementation: %r" % (
+                    "accepted" if want_off is None else "tag not found at offset %d" % want_off, "accepted" if got_v is None else got_v))
         if st == "err" and b"tag not found" in C.unhx(d.get("msg", "-")):
             dist["rejected_tag_not_found"] += 1
         stt, dt = P.parse(tr)
@@ -423,8 +435,8 @@ def catalog_part(res, acc, rng, quick, rp):
                     bad(k, "an interaction with a Tags directive carries exactly those tags", "%r: has %r, Tags says %r" % (key, got, want))
                 for n in want:
                     if n not in declared:
-                        undeclared.append((k, key, n))
-                        dist["undeclared_but_automatic"] += 1
+                        bad(k, "each tag of a Tags directive must be declared by a TAG directive or the document is rejected",
+                            "accepted although no TAG directive declares %r named by the Tags directive of %r" % (n, key))
             else:
                 dist["automatic"] += 1
                 if len(got) != 1:
@@ -442,22 +454,36 @@ def catalog_part(res, acc, rng, quick, rp):
                 if seg in auto_of_seg and auto_of_seg[seg] != got[0]:
                     bad(k, "interactions with the same first segment share the tag", "segment %r: %r and %r" % (seg, auto_of_seg[seg], got[0]))
                 auto_of_seg.setdefault(seg, got[0])
+        # every Tags directive, wherever it stands (also one that no method takes its tags from)
+        def walk_tags(nodes, parent):
+            for nd in nodes:
+                if nd["kind"] == 21:
+                    continue
+                if nd["kind"] == 29:
+                    dist["tags_directives"] += 1
+                    sibs = parent["kids"] if parent is not None else []
+                    inherited = parent is not None and (
+                        parent["kind"] in HTTP_KINDS or parent["kind"] == 25 or
+                        (parent["kind"] == 7 and any((x["kind"] in HTTP_KINDS or x["kind"] == 25) and
+                                                     not any(y["kind"] == 29 for y in x["kids"]) for x in sibs)))
+                    if not inherited:
+                        dist["tags_directives_no_method_inherits"] += 1
+                    if C.unhx(nd["ann"]) != b"":
+                        bad(k, "a Tags directive has no annotation", "annotation %r" % C.unhx(nd["ann"]))
+                    if not ups_of(nd):
+                        bad(k, "a Tags directive has parameters", "none")
+                    for n in ups_of(nd):
+                        if go_coerce(n) not in declared:
+                            bad(k, "each tag of a Tags directive must be declared by a TAG directive or the document is rejected",
+                                "accepted although no TAG directive declares %r named by a Tags directive%s" % (
+                                    go_coerce(n), "" if inherited else " that no method takes its tags from"))
+                walk_tags(nd["kids"], nd)
+
+        walk_tags(forest, None)
         names = list(auto_of_seg.values())
         if len(set(names)) != len(names):
             bad(k, "different first segments get different tag names", "%r" % (auto_of_seg,))
     res.notes["catalog_level"] = dist
-    if undeclared:
-        k, key, n = min(undeclared, key=lambda u: len(projects[u[0]][1][0][1]))
-        root = projects[k][1][0][1]
-        msg = ("id=%s class=undeclared-automatic theorem=undeclared_tag_accepted_refuted documents=%d smallest: %r is accepted although "
-               "no TAG directive declares %r named by the Tags directive of %r" % (KNOWN_UNDECLARED, len({u[0] for u in undeclared}), root, n, key))
-        if KNOWN_UNDECLARED in known_ids:
-            res.known.append(msg)
-        else:
-            origin, pj = projects[k]
-            acc.spec_bad.append(("each tag of a Tags directive must be declared by a TAG directive or the document is rejected: " + msg,
-                                 {"project": [(C.hx(a), C.hx(c)) for a, c in pj], "class": "undeclared-automatic",
-                                  "theorem": "undeclared_tag_accepted_refuted"}))
 
 
 def judge(res, pr, corr_bad, spec_bad):
